@@ -488,3 +488,35 @@ def has_failing_constant(prog):
             return walk(e.a) or walk(e.c) or walk(e.b)
         return False
     return any(walk(st.rhs) for st in equations(prog))
+
+
+# ---------------------------------------------------------------------------------------------------------------
+# parallel observation of the real code (thorough tier)
+
+_OBSERVE = None
+
+
+def _observe_chunk(chunk):
+    import framework
+    rep = framework.Report()
+    impls = [_OBSERVE(c, rep) for c in chunk]
+    return rep, impls
+
+
+def observe_all(observe, cases, rep, workers=1):
+    """[observe(c, rep) for c in cases], spread over forked workers when there are many cases (deterministic:
+    every case carries its own data seed, results are merged in case order)."""
+    global _OBSERVE
+    if workers <= 1 or len(cases) < 4000:
+        return [observe(c, rep) for c in cases]
+    import multiprocessing as mp
+    _OBSERVE = observe
+    size = max(200, len(cases) // (workers * 4) + 1)
+    chunks = [cases[i:i + size] for i in range(0, len(cases), size)]
+    with mp.get_context('fork').Pool(workers) as pool:
+        parts = pool.map(_observe_chunk, chunks)
+    impls = []
+    for r, im in parts:
+        rep.merge(r)
+        impls += im
+    return impls
